@@ -59,6 +59,9 @@ extern int __verif_memo_miss;
 #  define REF_MUL32(a, b) __verif_mul32(a, b)
 #  define REF_MUL64(a, b) __verif_mul64(a, b)
 #  define REF_UDIV32(a, b) __verif_udiv32(a, b)
+u32 __verif_sdiv32(u32 a, u32 b); u32 __verif_srem32(u32 a, u32 b);
+#  define REF_SDIV32(a, b) ((i32)__verif_sdiv32((u32)(a), (u32)(b)))
+#  define REF_SREM32(a, b) ((i32)__verif_srem32((u32)(a), (u32)(b)))
 #  define REF_UREM32(a, b) __verif_urem32(a, b)
 #  define REF_UDIV64(a, b) __verif_udiv64(a, b)
 #  define REF_UREM64(a, b) __verif_urem64(a, b)
@@ -76,6 +79,8 @@ void __verif_seq(int mode);
 #  define REF_MUL32(a, b) ((u32)((u32)(a) * (u32)(b)))
 #  define REF_MUL64(a, b) ((u64)((u64)(a) * (u64)(b)))
 #  define REF_UDIV32(a, b) ((u32)((u32)(a) / (u32)(b)))
+#  define REF_SDIV32(a, b) ((i32)(a) / (i32)(b))
+#  define REF_SREM32(a, b) ((i32)(a) % (i32)(b))
 #  define REF_UREM32(a, b) ((u32)((u32)(a) % (u32)(b)))
 #  define REF_UDIV64(a, b) ((u64)((u64)(a) / (u64)(b)))
 #  define REF_UREM64(a, b) ((u64)((u64)(a) % (u64)(b)))
